@@ -1,7 +1,21 @@
----- MODULE GenK ----
-EXTENDS KalmanExact
-VARIABLES z, done
-GInit == z \in [1..4 -> 98..102] /\ done = FALSE
-GNext == done = FALSE /\ done' = TRUE /\ UNCHANGED z
-Emit == done => PrintT(<<"REPLAY", ToJson([kind |-> "kalman", z |-> z, r |-> Run(z[1], z[2], z[3], z[4])])>>)
-====
+-------------------------------- MODULE GenK --------------------------------
+(* Exact two-cycle runs: initiate(z0); predict; update(z1); predict;            *)
+(* update(z2); predict; distance(z3) for every z in [1..4 -> Lo..Hi].           *)
+(* (Mirror = 1: every z negated).  Every number is a rational <<num, den>>.      *)
+EXTENDS KalmanExact, Json, TLC
+CONSTANTS Lo, Hi, Mirror
+Sg == IF Mirror = 1 THEN -1 ELSE 1
+VARIABLES stage, z
+vars == <<stage, z>>
+Init == stage = 0 /\ z = <<>>
+Next == \/ stage = 0 /\ stage' = 1 /\ \E a \in Lo..Hi, b \in Lo..Hi : z' = <<Sg * a, Sg * b>>
+        \/ stage = 1 /\ stage' = 2 /\ \E c \in Lo..Hi, d \in Lo..Hi : z' = z \o <<Sg * c, Sg * d>>
+Spec == Init /\ [][Next]_vars
+St(s) == <<s.p, s.v, s.pp, s.pv, s.vv>>
+Emit == stage = 2 =>
+        LET r == Run(z[1], z[2], z[3], z[4]) IN
+        /\ Assert(r.spd = 1, <<"exact covariance not positive-definite", z>>)
+        /\ PrintT(<<"REPLAY", ToJson([kind |-> "exact", z |-> z, h |-> Height, wp |-> WPos, wv |-> WVel,
+                    ops |-> <<"p", "u", "p", "u", "p">>,
+                    st |-> <<St(r.s1), St(r.s2), St(r.s3), St(r.s4), St(r.s5)>>, d |-> r.d])>>)
+=============================================================================
